@@ -767,6 +767,14 @@ bool TypeAuditor::ViRecursion(Cursor iter) {
     return false;
   }
 
+  // Note: the step can be less specific than the initial value (e.g. an empty set literal),
+  // the recursion then has the more specific of the two compatible types
+  const auto mergeWith = [&](const ExpressionType& type, const ExpressionType& other) -> ExpressionType {
+    const auto merged = env.Merge(std::get<Typification>(type), std::get<Typification>(other));
+    return merged.has_value() ? ExpressionType{ merged.value() } : type;
+  };
+  iterationValue = mergeWith(iterationValue.value(), initType.value());
+
   { 
     const auto guard = noWarnings.CreateGuard();
     for (auto retries = typeDeductionDepth; retries > 0; --retries) {
@@ -778,6 +786,7 @@ bool TypeAuditor::ViRecursion(Cursor iter) {
       if (!newIteration.has_value()) {
         return false;
       }
+      newIteration = mergeWith(newIteration.value(), iterationValue.value());
       if (std::get<Typification>(newIteration.value()) == std::get<Typification>(iterationValue.value())) {
         break;
       }
